@@ -174,6 +174,9 @@ def prove(ctx: Ctx, targets: Sequence[str], kind: str = "P", by_property: bool =
         sb["queries"] += st.get("second_backend_queries", 0)
         for k in ("cvc5_unsat", "cvc5_unknown", "cvc5_sat", "z3old_unsat", "z3old_unknown", "z3old_sat"):
             sb[k] += st.get(k, 0)
+        # margin to the per-query budget (10 s): the slowest single solver query of this check, and how many there were
+        ctx.crosscheck["slowest_query_ms"] = max(ctx.crosscheck.get("slowest_query_ms", 0), st.get("max_query_ms", 0))
+        ctx.crosscheck["solver_queries"] = ctx.crosscheck.get("solver_queries", 0) + st.get("queries", 0)
         cr = res.get("cross", {})
         if cr.get("paths_replayed"):
             ctx.crosscheck["summaries"] += 1
